@@ -18,11 +18,15 @@ def run(cmd, cwd, env=None):
     return r.returncode, r.stdout.decode(errors='replace')
 
 
+STORE = {'A': 'A', 'B': 'B'}
+
+
 def confirm(wt, pid, letter):
+    store = STORE[letter]
     diff = os.path.join(wt, 'mutant%s.diff' % letter)
     demo = os.path.join(wt, 'demo%s.py' % letter)
     if not (os.path.exists(diff) and os.path.exists(demo)):
-        return {'id': '%s-%s' % (pid, letter), 'kept': False, 'why': 'files missing'}
+        return {'id': '%s-%s' % (pid, store), 'kept': False, 'why': 'files missing'}
     tmp = tempfile.mkdtemp(prefix='pbk-seed-')
     try:
         repo = os.path.join(tmp, 'repo')
@@ -37,14 +41,14 @@ def confirm(wt, pid, letter):
         rc_t, out_t = run(['/venv/bin/python', '-m', 'pytest', '-q', '-p', 'no:cacheprovider'], repo, env)
         tail = out_t.strip().splitlines()[-1] if out_t.strip() else ''
         ok = rc_clean == 0 and rc_mut != 0 and rc_t == 0
-        res = {'id': '%s-%s' % (pid, letter), 'kept': ok, 'demo_clean_rc': rc_clean, 'demo_mutant_rc': rc_mut,
+        res = {'id': '%s-%s' % (pid, store), 'kept': ok, 'demo_clean_rc': rc_clean, 'demo_mutant_rc': rc_mut,
                'pytest_rc': rc_t, 'pytest_tail': tail, 'demo_mutant_tail': out_mut.strip().splitlines()[-1:] }
         if ok:
-            d = os.path.join(HERE, 'seeded', '%s-%s' % (pid, letter))
+            d = os.path.join(HERE, 'seeded', '%s-%s' % (pid, store))
             os.makedirs(d, exist_ok=True)
             shutil.copy(diff, os.path.join(d, 'patch.diff'))
             shutil.copy(demo, os.path.join(d, 'demo.py'))
-            meta = {'property': pid, 'id': '%s-%s' % (pid, letter), 'source': 'independent sub-agent given only the property text',
+            meta = {'property': pid, 'id': '%s-%s' % (pid, store), 'source': 'independent sub-agent given only the property text',
                     'confirmed': {'demo_on_unchanged_tree': 'exit 0', 'demo_with_change': 'exit %d' % rc_mut,
                                   'pinned_suite_with_change': tail},
                     'ran': ['python demo.py (clean, then patched) in a scratch copy of /repo', 'python -m pytest -q on the patched copy'],
@@ -63,6 +67,9 @@ def confirm(wt, pid, letter):
 if __name__ == '__main__':
     jobs = []
     args = sys.argv[1:]
+    if args and args[0] == '--round2':
+        STORE.update({'A': 'C', 'B': 'D'})
+        args = args[1:]
     pairs = [(args[i], args[i + 1]) for i in range(0, len(args), 2)]
     with ThreadPoolExecutor(8) as ex:
         futs = [ex.submit(confirm, wt, pid, l) for wt, pid in pairs for l in 'AB']
